@@ -1636,6 +1636,94 @@ def _expand_partials(node: ast.FunctionDef) -> bool:
     return changed
 
 
+_MUTATORS = {"append", "extend", "insert", "pop", "remove", "sort", "reverse", "clear", "update", "add", "discard", "setdefault", "popitem"}
+
+
+def _display_elems(node: ast.FunctionDef, e: ast.AST, depth: int = 0):
+    """the elements of the display ``e`` — directly, or through a local bound once to one and never mutated — with starred parts
+    that are themselves displays, or one-generator comprehensions over displays, spliced in: [0, *(c + 1 for c in cuts)] with
+    cuts = [a, b] is [0, a + 1, b + 1].  (elements, line of the latest definition consulted) or None."""
+    if depth > 4:
+        return None
+    line = 0
+    if isinstance(e, ast.Name):
+        stores = [n for n in ast.walk(node) if isinstance(n, ast.Name) and n.id == e.id and isinstance(n.ctx, (ast.Store, ast.Del))]
+        defs = [n for n in ast.walk(node) if isinstance(n, ast.Assign) and len(n.targets) == 1 and isinstance(n.targets[0], ast.Name) and n.targets[0].id == e.id]
+        if len(stores) != 1 or len(defs) != 1 or e.id in {a.arg for a in node.args.args + node.args.kwonlyargs}:
+            return None
+        for n in ast.walk(node):
+            if isinstance(n, ast.Call) and isinstance(n.func, ast.Attribute) and isinstance(n.func.value, ast.Name) and n.func.value.id == e.id and \
+                    n.func.attr in _MUTATORS:
+                return None
+            if isinstance(n, (ast.Subscript, ast.Attribute)) and isinstance(n.ctx, (ast.Store, ast.Del)) and isinstance(n.value, ast.Name) and n.value.id == e.id:
+                return None
+            if isinstance(n, ast.AugAssign) and isinstance(n.target, ast.Name) and n.target.id == e.id:
+                return None
+        line = defs[0].lineno
+        e = defs[0].value
+    if isinstance(e, (ast.ListComp, ast.GeneratorExp)) and len(e.generators) == 1 and not e.generators[0].ifs and isinstance(e.generators[0].target, ast.Name):
+        src = _display_elems(node, e.generators[0].iter, depth + 1)
+        if src is None:
+            return None
+        v = e.generators[0].target.id
+        return [_Rename({v: x}).visit(copy.deepcopy(e.elt)) for x in src[0]], max(line, src[1])
+    if not isinstance(e, (ast.List, ast.Tuple)):
+        return None
+    out = []
+    for x in e.elts:
+        if isinstance(x, ast.Starred):
+            sub = _display_elems(node, x.value, depth + 1)
+            if sub is None:
+                return None
+            out.extend(sub[0])
+            line = max(line, sub[1])
+        else:
+            out.append(x)
+    return (out, line) if len(out) <= 8 else None
+
+
+def _unroll_zip_displays(node: ast.FunctionDef) -> bool:
+    """`for a, b, c in zip(A, B, C)` with A, B, C displays of the same (small) length — possibly through locals bound once, with
+    spliced parts — is its body once per position, the loop variables replaced by the elements.  The elements are expressions
+    (they are read, not run): nothing they mention may be re-bound after the displays were built."""
+    for block in _blocks(node):
+        for i, st in enumerate(block):
+            if not (isinstance(st, ast.For) and not st.orelse and isinstance(st.iter, ast.Call) and isinstance(st.iter.func, ast.Name) and
+                    st.iter.func.id == "zip" and not st.iter.keywords and 2 <= len(st.iter.args) <= 6 and isinstance(st.target, ast.Tuple) and
+                    len(st.target.elts) == len(st.iter.args) and all(isinstance(t, ast.Name) for t in st.target.elts) and len(st.body) <= 8 and
+                    not any(isinstance(x, (ast.Break, ast.Continue)) for x in ast.walk(st))):
+                continue
+            cols = [_display_elems(node, a) for a in st.iter.args]
+            if any(c is None for c in cols) or len({len(c[0]) for c in cols}) != 1:
+                continue
+            k = len(cols[0][0])
+            if k * len(st.body) > 48:
+                continue
+            names = [t.id for t in st.target.elts]
+            if any(isinstance(x, ast.Name) and isinstance(x.ctx, ast.Store) and x.id in names for b in st.body for x in ast.walk(b)):
+                continue
+            # free names of the elements are not re-bound between the displays and the end of the loop
+            since = min(c[1] for c in cols if c[1]) if any(c[1] for c in cols) else st.lineno
+            free = {x.id for c in cols for el in c[0] for x in ast.walk(el) if isinstance(x, ast.Name)}
+            if any(isinstance(x, ast.Name) and isinstance(x.ctx, ast.Store) and x.id in free and since < getattr(x, "lineno", 0) <= getattr(st, "end_lineno", st.lineno)
+                   for x in ast.walk(node)):
+                continue
+            # the loop variables are not read after the loop
+            inside = sum(1 for x in ast.walk(st) if isinstance(x, ast.Name) and isinstance(x.ctx, ast.Load) and x.id in names)
+            total = sum(1 for x in ast.walk(node) if isinstance(x, ast.Name) and isinstance(x.ctx, ast.Load) and x.id in names)
+            if total > inside:
+                continue
+            unrolled = []
+            for j in range(k):
+                mp = {nm: cols[c][0][j] for c, nm in enumerate(names)}
+                for b in st.body:
+                    unrolled.append(ast.copy_location(_Rename(mp).visit(copy.deepcopy(b)), st))
+            block[i:i + 1] = unrolled
+            ast.fix_missing_locations(node)
+            return True
+    return False
+
+
 def _cond_iterables(node: ast.FunctionDef) -> bool:
     """`for v in (A if c else ())` — directly or through a local bound once and used only there — is `if c: for v in A`: a loop over
     nothing is no loop"""
@@ -1989,6 +2077,8 @@ def normalise(M, fn, subst: bool = False, guards: bool = False, keep=(), comps: 
         node.body = _fold_const_ifs(node.body)
         node = _UnrollComps(M, fn, node).generic_visit(node)
         node = _AttrCalls().generic_visit(node) if True else node
+        if _unroll_zip_displays(node):
+            changed.append("zip-displays")
         if not changed:
             break
     for _ in range(3):
